@@ -101,6 +101,10 @@ pub struct Model {
     pub rec_a: BTreeMap<String, BTreeSet<String>>,
     /// source path without generics -> target as written
     pub subs: BTreeMap<String, String>,
+    /// source path without generics -> source as written in the call that set the rule in force (its generics
+    /// decide how the target's parameters are filled)
+    #[serde(default)]
+    pub subs_src: BTreeMap<String, String>,
 }
 
 #[derive(Clone, Debug, PartialEq, Eq)]
@@ -148,12 +152,16 @@ impl Model {
                     return Expected::Err(e);
                 }
                 self.subs.insert(source_key(s), squash(t));
+                self.subs_src.insert(source_key(s), s.clone());
             }
             Call::InsertIfAbsent(s, t) => {
                 if let Some(e) = pair_error(s, t) {
                     return Expected::Err(e);
                 }
-                self.subs.entry(source_key(s)).or_insert(squash(t));
+                if !self.subs.contains_key(&source_key(s)) {
+                    self.subs.insert(source_key(s), squash(t));
+                    self.subs_src.insert(source_key(s), s.clone());
+                }
             }
             Call::Extend(pairs) => {
                 for (s, t) in pairs {
@@ -161,6 +169,7 @@ impl Model {
                         return Expected::Err(e);
                     }
                     self.subs.insert(source_key(s), squash(t));
+                    self.subs_src.insert(source_key(s), s.clone());
                 }
             }
         }
@@ -276,6 +285,29 @@ fn probe_registry() -> scale_info::PortableRegistry {
     elaborate(&Program {
         defs,
         roots: vec![Ty::Named(0, vec![]), Ty::Named(2, vec![])],
+    })
+    .registry
+}
+
+/// probe for applied substitutes: `P<T> { t: T }`, `Q(u16)`, `Host { p: P<u32>, q: Q, v: Vec<P<u8>> }`
+fn subst_probe_registry() -> scale_info::PortableRegistry {
+    let defs = vec![
+        Def::strukt(&["p", "a"], "P", &["T"], named(vec![("t", Ty::Param(0))])),
+        Def::strukt(&["p", "b"], "Q", &[], unnamed(vec![U16])),
+        Def::strukt(
+            &["p", "h"],
+            "Host",
+            &[],
+            named(vec![
+                ("p", Ty::Named(0, vec![Ty::Prim(Prim::U32)])),
+                ("q", Ty::Named(1, vec![])),
+                ("v", Ty::Vec(b(Ty::Named(0, vec![U8])))),
+            ]),
+        ),
+    ];
+    elaborate(&Program {
+        defs,
+        roots: vec![Ty::Named(2, vec![])],
     })
     .registry
 }
@@ -401,6 +433,52 @@ pub fn check_history(h: &[Call], ctx: &mut Ctx) -> Model {
         let segs: Vec<String> = k.split("::").map(|s| s.to_string()).collect();
         if !real.subs.contains(&segs) {
             ctx.violation("C16/contains", format!("contains({k}) is false"), replay(), h.len());
+        }
+    }
+    // the rules in force, observed by applying them: generation on a probe registry that uses the generic
+    // `P<u32>`, `Vec<P<u8>>` and `Q` must give what a fresh rule set holding only the model's final rules gives
+    // (a rule overwritten in place must not keep anything of the rule it replaced)
+    if !model.subs.is_empty() {
+        let mut fresh = TypeSubstitutes::new();
+        let mut built = true;
+        for (k, t) in &model.subs {
+            let src = model.subs_src.get(k).cloned().unwrap_or_else(|| k.clone());
+            match absolute_path(parse_path(t)) {
+                Ok(t) => built &= fresh.insert(src_path(&src), t).is_ok(),
+                Err(_) => built = false,
+            }
+        }
+        if built {
+            let preg = subst_probe_registry();
+            let gen_with = |subs: &TypeSubstitutes| {
+                let mut settings = SettingsSpec::default().build();
+                settings.substitutes = subs.clone();
+                generate(&preg, &settings)
+            };
+            ctx.exec(2);
+            let a = gen_with(&real.subs);
+            let b_ = gen_with(&fresh);
+            let show = |o: &GenOutcome| match o {
+                GenOutcome::Ok { tokens } => squash(tokens),
+                other => format!("{other:?}"),
+            };
+            if show(&a) != show(&b_) {
+                let (sa, sb) = (show(&a), show(&b_));
+                let i = sa.chars().zip(sb.chars()).position(|(x, y)| x != y).unwrap_or(sa.len().min(sb.len()));
+                let lo = i.saturating_sub(40);
+                let cut = |s: &str| s.chars().skip(lo).take(120).collect::<String>();
+                ctx.violation(
+                    "C16/rules-applied-differ-from-fresh",
+                    format!(
+                        "after this history the rules {:?} generate …{}… but the same rules inserted into a fresh set generate …{}…",
+                        model.subs_src,
+                        cut(&sa),
+                        cut(&sb)
+                    ),
+                    replay(),
+                    h.len(),
+                );
+            }
         }
     }
     // the derives applied to the probe types (substitutes not applied here: they would remove the items)
